@@ -78,7 +78,8 @@ def usable(rec, x, tabs):
 
 def replay_conv(job):
     """job = (record, list of magnitudes (float or list)) -> (status, failure, detail, nobs)"""
-    rec, xs = job
+    rec, xs = job[0], job[1]
+    extra = job[2] if len(job) > 2 else {"tm": [], "unc": []}
     tabs = replay_conv.tabs
     rule = rec["rule"]
     ua = rec["a"] or None
@@ -88,10 +89,13 @@ def replay_conv(job):
         return ("unspecified", None, None, 0)
     st, failure, det = "ok", None, None
     accepted_any = False
-    for x in xs:
+    for k, x in enumerate(xs):
         xv = A.mag_float(x)
         if rule == "reject":
-            r1 = A.conv_value(x, ua, ub); r2 = A.conv_to(x, ua, ub); nobs += 2
+            # the first magnitude through both entry points, the others through one of them in turn
+            r1 = A.conv_value(x, ua, ub) if k == 0 or k % 2 == 1 else ("err", "", True)
+            r2 = A.conv_to(x, ua, ub) if k == 0 or k % 2 == 0 else ("err", "", True)
+            nobs += (2 if k == 0 else 1)
             if r1[0] == "val" or r2[0] == "val":
                 accepted_any = True
                 return ("violation", "accepted_mismatch",
@@ -133,6 +137,41 @@ def replay_conv(job):
                     return ("violation", "round_trip", {"expected": x, "observed": back.tolist(), "x": x, "clause": "converting back returns x (rel 1e-9)"}, nobs)
             except Exception as e:
                 return ("violation", "round_trip", {"expected": x, "observed": repr(e)[:200], "x": x, "clause": "converting back returns x"}, nobs)
+    # ---- the target given as a quantity  m v
+    xq = next((x for x in xs if isinstance(x, float) and x != 0 and np.isfinite(x) and abs(x) < 1e10), None)
+    if xq is not None and extra["tm"]:
+        for m in extra["tm"]:
+            r = A.conv_to_quantity(xq, ua, m, ub); nobs += 1
+            if rule == "reject":
+                if r[0] == "val":
+                    return ("violation", "accepted_mismatch", {"expected": "an exception", "observed": r[:2], "x": xq, "target": [m, ub],
+                                                              "clause": "different dimensions => refused, also when the target is a quantity"}, nobs)
+                if not r[2] or not r[3]:
+                    return ("violation", "changed_by_refusal", {"expected": "source and target unchanged", "observed": {"source unchanged": r[2], "target unchanged": r[3]},
+                                                                "x": xq, "target": [m, ub], "clause": "a refused conversion to a quantity target leaves the quantity (and the target) as it was"}, nobs)
+            else:
+                okx, _ = usable(rec, xq, tabs)
+                if not okx:
+                    continue
+                with np.errstate(all="ignore"):
+                    exp = float(A.ev(rec["expect_qt"], tabs, np.float64(xq), np.float64(m)))
+                if r[0] != "val":
+                    return ("violation", "refused_valid", {"expected": exp, "observed": r[:2], "x": xq, "target": [m, ub],
+                                                           "clause": f"{rule}: to(Quantity(m, v)) is performed"}, nobs)
+                if not A.close(r[1], exp, REL) or not r[3] or not r[4]:
+                    return ("violation", "wrong_value", {"expected": exp, "observed": r[1:], "x": xq, "target": [m, ub],
+                                                         "clause": f"{rule}: to(Quantity(m, v)) = (conversion to v) / m, in place, target untouched"}, nobs)
+    # ---- a source that carries an uncertainty: the converted VALUE is the conversion of the exact value
+    if xq is not None and rule != "reject":
+        for kind, amount in extra["unc"]:
+            for x in (xq, [xq, 2.0 * xq, -0.5 * xq]):
+                okx, exp = usable(rec, A.mag_float(x), tabs)
+                if not okx:
+                    continue
+                r = A.conv_uncertain(x, ua, ub, kind, amount); nobs += 2
+                if r[0] != "val" or not A.close(r[1], exp, REL) or not A.close(r[2], exp, REL):
+                    return ("violation", "value_depends_on_error", {"expected": np.asarray(exp).tolist(), "observed": r[1:], "x": x, "uncertainty": [kind, amount],
+                                                                    "clause": f"{rule}: the value converted from a quantity with an uncertainty is the conversion of the exact value"}, nobs)
     if st == "ok" and nobs:
         # conformance of the dispatch transcription
         mach_rej = rec["mrule"] == "reject"
@@ -173,7 +212,7 @@ def run(replay=None):
         if s.get("_kind") == "triple":
             res = replay_triple((s["u"], s["w"], s["v"], s["rec"], s["x"]))
         else:
-            res = replay_conv((s, s["_xs"]))
+            res = replay_conv((s, s["_xs"], s.get("_extra", {"tm": [], "unc": []})))
         print(f"replay {replay}: {res[:3]}")
         if res[0] == "violation" and C.Findings(PID).match(s.get("tags", []), res[1]) is None:
             print(f"VIOLATION property={PID} replay={replay}")
@@ -250,6 +289,14 @@ def run(replay=None):
     zeros = [float(A.ev(t, tabs)) for t in header[0]["zeros"]]
     zarr = [float(A.ev(t, tabs)) for t in header[0]["zeroarray"]]
     decs = [{"dec": "1"}, {"dec": "-3"}, {"dec": "2.5e-7"}] if "decimal" in header[0]["kinds"] else []
+    tmags = [float(A.ev(t, tabs)) for t in header[0]["target_mags"]]
+    uncs = [(k, float(A.ev(t, tabs))) for k, t in header[0]["uncertainties"]]
+    def extra_for(rec, full):
+        if rec["rule"] == "reject":
+            return {"tm": [rnd.choice(tmags[1:])] + ([tmags[0]] if full else []), "unc": []}
+        if rec["rule"] in C04_RULES:
+            return {"tm": tmags if full else [tmags[0], rnd.choice(tmags[1:])], "unc": uncs if full else [rnd.choice(uncs)]}
+        return {"tm": [], "unc": []}
     def xs_for(rec, full):
         if rec["rule"] == "reject":
             # a refusal does not depend on the magnitude: a non-zero value, zero, negative zero, an all-zero array
@@ -262,22 +309,23 @@ def run(replay=None):
             return seq + [mags[1], arr]
         return []
     for rec in table:
-        jobs.append((dict(rec, _src="table"), xs_for(rec, True if rec["rule"] != "reject" else tier != "quick")))
+        full = True if rec["rule"] != "reject" else tier != "quick"
+        jobs.append((dict(rec, _src="table"), xs_for(rec, full), extra_for(rec, full)))
     comp = compound
     if tier == "quick":
         keep = [x for x in compound if x["rule"] != "reject" or x["mrule"] != "reject"]
         rest = [x for x in compound if x["rule"] == "reject" and x["mrule"] == "reject"]
-        comp = keep + rnd.sample(rest, min(len(rest), 6000))
+        comp = keep + rnd.sample(rest, min(len(rest), 4000))
     for rec in comp:
-        jobs.append((dict(rec, _src="compound"), xs_for(rec, rec["rule"] != "reject")))
+        jobs.append((dict(rec, _src="compound"), xs_for(rec, rec["rule"] != "reject"), extra_for(rec, rec["rule"] != "reject" and tier != "quick")))
     for rec in variants:
-        jobs.append((dict(rec, _src="variant"), xs_for(rec, tier != "quick")))
+        jobs.append((dict(rec, _src="variant"), xs_for(rec, tier != "quick"), extra_for(rec, tier != "quick")))
     res = C.pmap(replay_conv, jobs)
     nobs = 0
     classes = {}
     nontrivial = set()
     samples = []
-    for (rec, xs), r in zip(jobs, res):
+    for (rec, xs, extra), r in zip(jobs, res):
         st, failure, det, n = r
         nobs += n
         key = rec["_src"] + ":" + rec["rule"].split(":")[0]
@@ -287,7 +335,7 @@ def run(replay=None):
         elif rec["rule"] == "reject" and rec["tags"]:
             nontrivial.add((rec["a"], rec["b"]))
         if st == "violation":
-            scen = dict(rec, _xs=[det.get("x")] if det.get("x") is not None else xs)
+            scen = dict(rec, _xs=[det.get("x")] if det.get("x") is not None and "target" not in det and "uncertainty" not in det else xs, _extra=extra)
             V.fail(scen, det.get("expected"), det.get("observed"), det["clause"] + f" :: Quantity(x, {rec['a'] or None!r}) -> {rec['b']!r}",
                    tags=list(rec["tags"]), failure=failure)
         elif st == "drift":
@@ -337,7 +385,9 @@ def run(replay=None):
                 f"{len(SUB_Q if tier == 'quick' else SUB_T)}-unit sub-table with exponents -1, 1, 2 (<= 3 entries); prefixed and exponentiated variants so that every "
                 "admissible (prefix, unit) pair is converted; each replayed through value() and to() on fresh objects for the magnitudes "
                 "0, 1, -3, 2.5e-7, 1e30, an array and Decimal values in a seeded order through the same target (the result and its kind must "
-                "not depend on what was converted before), refused pairs also with 0, -0.0 and an all-zero array, round trips, triples; non-trivial = distinct ordered pairs with different sides that convert, "
+                "not depend on what was converted before), refused pairs also with 0, -0.0 and an all-zero array, targets given as a quantity m v with "
+                "m = 1 and m != 1 (accepted: result / m; refused: source and target unchanged), sources carrying abse / rele (value = conversion "
+                "of the exact value), round trips, triples; non-trivial = distinct ordered pairs with different sides that convert, "
                 "or refused pairs carrying a feature tag",
         "samples": samples, "exhaustive": True, "classes": classes, "triples": len(tjobs),
         "magnitudes": mags, "array": arr,
